@@ -129,9 +129,15 @@ class Overlay:
                 if d == 'closure' and parts and not parts[0].isdigit():
                     # `//@ closure METHOD K`: header of the K-th closure literal that is the first argument
                     # of a call `.METHOD(`/`METHOD(` (robust against closures inserted elsewhere)
-                    if len(parts) != 2 or not parts[1].isdigit():
-                        raise Undecided('overlay %s:%d: closure needs N or METHOD K' % (path, ln))
+                    opt = len(parts) == 3 and parts[2] == 'optional'
+                    if (len(parts) != 2 and not opt) or not parts[1].isdigit():
+                        raise Undecided('overlay %s:%d: closure needs N or METHOD K [optional]' % (path, ln))
                     cur_sec = ('closure_named', (parts[0], int(parts[1])))
+                    if opt:
+                        # `//@ closure METHOD K optional`: if the code no longer passes such a closure the
+                        # annotation is simply not used (an annotation only ADDS knowledge; without it the
+                        # function verifies on what the environment says about the replacement, or fails)
+                        self.fns[cur_fn].setdefault('optional_named', set()).add((parts[0], int(parts[1])))
                     continue
                 cur_sec = (d, int(parts[0]))
                 if d == 'closurecall' and len(parts) >= 3 and parts[1] == 'via':
@@ -430,6 +436,10 @@ class FnRewriter:
                 raise Undecided('%s: overlay names loop %d but the function has %d loops'
                                 % (self.fnkey, n, self._loop_no))
         for key in self.ov.get('closures_named', {}):
+            if key not in getattr(self, '_named_used', set()) and key in self.ov.get('optional_named', ()):
+                self.log.append({'rule': 'R8c', 'fn': self.fnkey, 'line': 0,
+                                 'what': 'optional closure annotation `%s %d` not used: no such closure argument' % key})
+                continue
             if key not in getattr(self, '_named_used', set()):
                 raise Undecided('%s: overlay names closure `%s %d` but no such closure argument exists'
                                 % (self.fnkey, key[0], key[1]))
